@@ -1,3 +1,4 @@
+import GoWebdav.Impl.Discovery
 import Driver.Codec
 import Driver.OpsCardWire
 import Driver.OpsRawXml
@@ -110,8 +111,17 @@ def opPfDiscover (args : List SExp) : Option OpResult := do
   match args with
   | [.atom _srv, .atom p, .atom hs, .list cs] =>
     let cs ← cs.mapM (fun c => match c with | .atom a => some a | _ => none)
+    -- the specification: exactly the backend's paths
     let want := s!"{p} {hs} {sxList cs}"
-    pure ⟨want, mustEqual "C12" "discovery-chain-does-not-return-the-backend-paths" want⟩
+    -- the model (`Impl.Discovery`, proved equal to it for all addressable paths: `C12_discovery_chain`): what the
+    -- servers put on the wire, read back the way the clients read it
+    let b : GoWebdav.Impl.Discovery.Backend := { principal := ← unhex p, homeSet := ← unhex hs, collections := ← cs.mapM unhex }
+    let impl := match GoWebdav.Impl.Discovery.discover (GoWebdav.Impl.Discovery.serve b) with
+      | some (wk, p', hs', cs') =>
+        if wk != b.principal then s!"wellknown-redirects-to-{hexBytes wk}"
+        else s!"{hexBytes p'} {hexBytes hs'} {sxList (cs'.map hexBytes)}"
+      | none => "principal-unreadable-href"
+    pure ⟨impl, mustEqual "C12" "discovery-chain-does-not-return-the-backend-paths" want⟩
   | _ => none
 
 /-- `pf.consist <server> => ok | <what disagrees> <href>`: the three request forms tell one story about which
